@@ -23,7 +23,7 @@ RULE = (
 )
 ASSUMPTIONS = [
     "Type 2 integer operands are int16 and CFF DICT / Type 1 integers int32 (format definitions)",
-    "tags are OpenType tags: 4 chars 0x20-0x7E, spaces only trailing, not all spaces",
+    "tags are 4 characters 0x20-0x7E, not all spaces (spaces anywhere: leading and interior spaces are part of the domain)",
     "timestamps are >= 1970-01-01 (timestampToString clamps earlier values by design)",
 ]
 
@@ -496,7 +496,9 @@ def check_timestamp(v):
 
 
 def tag_domain_ok(tag):
-    return len(tag) == 4 and tag.strip(" ") != "" and tag.rstrip(" ") == tag.strip(" ") and " " not in tag.rstrip(" ")
+    # every 4-character printable-ASCII tag except the all-space one: the tag codecs are defined on the whole Tag type
+    # (spaces anywhere), not only on tags the OpenType registry would accept
+    return len(tag) == 4 and tag.strip(" ") != ""
 
 
 def check_tag_ident(tag):
@@ -678,7 +680,7 @@ def jobs(tier, seed):
     # tags: 95 printable ASCII. thorough: all well-formed 4-char tags (about 8.2e7), sharded by first char;
     # quick: every well-formed tag whose 3rd and 4th characters come from a structured subset.
     if thorough:
-        for c in range(0x21, 0x7F):
+        for c in range(0x20, 0x7F):
             J.append(dict(kind="tags", name="tags-%02x" % c, first=c, full=True))
     else:
         for i in range(6):
@@ -1137,7 +1139,7 @@ def _tags_job(acc, job):
                             yield t
         else:
             sub = _tag_chars_quick()
-            firsts = nonsp[job["shard"] :: job["nshards"]]
+            firsts = chars[job["shard"] :: job["nshards"]]
             for c0 in firsts:
                 for c1 in chars:
                     for c2 in sub:
